@@ -784,6 +784,141 @@ def generate(repo):
            '\n'.join(f'def {nm} {sig} := {M}.{nm} left right top bottom rows cols'
                      for nm in ('cropRowLo', 'cropRowHi', 'cropColLo', 'cropColHi')))
 
+    # ---- util.mean / pv / rms / Sa / std: the statistics as list expressions over the valid samples
+    def util_stats():
+        def tr(e, env):
+            """-> (kind, lean) with kind 'list' | 'scalar'"""
+            txt = ast.unparse(e)
+            if txt in env:
+                return env[txt]
+            if isinstance(e, ast.Call) and isinstance(e.func, ast.Attribute) and not e.args and not e.keywords:
+                k, a = tr(e.func.value, env)
+                if k != 'list':
+                    raise Untranslatable(f'method {e.func.attr} of a scalar')
+                m = e.func.attr
+                if m == 'mean':
+                    return 'scalar', f'(lsum {a} / lenK {a})'
+                if m == 'sum':
+                    return 'scalar', f'(lsum {a})'
+                if m == 'max':
+                    return 'scalar', f'(lmax {a})'
+                if m == 'min':
+                    return 'scalar', f'(lmin {a})'
+                if m == 'std':
+                    mu = f'(lsum {a} / lenK {a})'
+                    return 'scalar', f'(sqrtf (lsum (({a}.map fun t => t - {mu}).map fun t => t * t) / lenK {a}))'
+                raise Untranslatable(f'array method {m}')
+            if isinstance(e, ast.Attribute) and e.attr == 'size':
+                k, a = tr(e.value, env)
+                if k == 'list':
+                    return 'scalar', f'(lenK {a})'
+            if isinstance(e, ast.Call) and ast.unparse(e.func) in ('abs', 'np.abs') and len(e.args) == 1:
+                k, a = tr(e.args[0], env)
+                return (k, f'({a}.map absf)') if k == 'list' else (k, f'(absf {a})')
+            if isinstance(e, ast.Call) and ast.unparse(e.func) in ('np.sqrt', 'math.sqrt', 'sqrt') and len(e.args) == 1:
+                k, a = tr(e.args[0], env)
+                if k == 'scalar':
+                    return k, f'(sqrtf {a})'
+            if isinstance(e, ast.BinOp):
+                if isinstance(e.op, ast.Pow) and isinstance(e.right, ast.Constant) and e.right.value == 2:
+                    k, a = tr(e.left, env)
+                    return (k, f'({a}.map fun t => t * t)') if k == 'list' else (k, f'({a} * {a})')
+                kl, a = tr(e.left, env)
+                kr, b = tr(e.right, env)
+                sym = {ast.Sub: '-', ast.Add: '+', ast.Mult: '*', ast.Div: '/'}.get(type(e.op))
+                if sym is None:
+                    raise Untranslatable(f'operator in {txt[:40]}')
+                if kl == 'scalar' and kr == 'scalar':
+                    return 'scalar', f'({a} {sym} {b})'
+                if kl == 'list' and kr == 'scalar':
+                    return 'list', f'({a}.map fun t => t {sym} {b})'
+            raise Untranslatable(f'statistic expression {txt[:50]}')
+
+        out = []
+        filt = set()
+        for name in ('mean', 'pv', 'rms', 'Sa', 'std'):
+            fn = get_def(utl, name)
+            arg = fn.args.args[0].arg
+            env = {}
+            ret = None
+            for st in fn.body:
+                if isinstance(st, ast.Expr) and isinstance(st.value, ast.Constant):
+                    continue
+                if isinstance(st, ast.Assign) and len(st.targets) == 1 and isinstance(st.targets[0], ast.Name):
+                    nm, v = st.targets[0].id, st.value
+                    if isinstance(v, ast.Call) and len(v.args) == 1 and ast.unparse(v.args[0]) == arg:
+                        filt.add(ast.unparse(v.func))                 # the validity mask
+                        env[f'{arg}[{nm}]'] = ('list', 'v')
+                        continue
+                    if isinstance(v, ast.UnaryOp) and isinstance(v.op, ast.Invert) and isinstance(v.operand, ast.Call) \
+                            and len(v.operand.args) == 1 and ast.unparse(v.operand.args[0]) == arg:
+                        filt.add('~' + ast.unparse(v.operand.func))
+                        env[f'{arg}[{nm}]'] = ('list', 'v')
+                        continue
+                    env[nm] = tr(v, env)
+                    continue
+                if isinstance(st, ast.Return):
+                    ret = tr(st.value, env)
+                    continue
+                raise Untranslatable(f'statement in util.{name}: {ast.unparse(st)[:40]}')
+            if ret is None or ret[0] != 'scalar':
+                raise Untranslatable(f'util.{name} does not return a scalar expression')
+            cls = '[Num K] [LT K] [DecidableLT K]' if name == 'pv' else '[Num K]'
+            out.append(f'def util_{name} {{K : Type}} {cls} (absf sqrtf : K → K) (v : List K) : K := {ret[1]}')
+        state['filters'] = filt
+        return '\n'.join(out)
+    state = {}
+    g.item('util.statistics', 'prysm/util.py:{mean,pv,rms,Sa,std}', lambda: ast.Module(body=[get_def(utl, n) for n in ('mean', 'pv', 'rms', 'Sa', 'std')], type_ignores=[]),
+           util_stats,
+           '\n'.join(f'def util_{n} {{K : Type}} {"[Num K] [LT K] [DecidableLT K]" if n == "pv" else "[Num K]"} (absf sqrtf : K → K) (v : List K) : K := {b}'
+                     for n, b in (('mean', 'mean v'), ('pv', 'pv v'), ('rms', 'sqrtf (meanSq v)'), ('Sa', 'saWith absf v'), ('std', 'sqrtf (var v)'))))
+
+    def util_filter():
+        f = state.get('filters')
+        if not f:
+            return None
+        if f <= {'np.isfinite', 'isfinite'}:
+            return True
+        if any(x.lstrip('~') in ('np.isnan', 'isnan', 'np.isinf', 'isinf') for x in f):
+            return False          # recognised and wrong: +-inf (or NaN) would count as valid samples
+        return None
+    g.fact('utilValidIsFinite', 'prysm/util.py:{mean,pv,rms,Sa,std}', util_filter)
+
+    # ---- which fitted columns the removal methods subtract
+    def removal_columns():
+        fp, fs = get_def(ig, 'fit_plane'), get_def(ig, 'fit_sphere')
+        # fit_plane: lstsq([x, y], z) and coefs[0]*x + coefs[1]*y
+        (c,) = [n for n in ast.walk(fp) if isinstance(n, ast.Call) and ast.unparse(n.func) == 'lstsq']
+        if ast.unparse(c.args[0]).replace(' ', '') != '[x,y]':
+            raise Untranslatable('fit_plane design is not [x, y]')
+        (ret,) = [n.value for n in ast.walk(fp) if isinstance(n, ast.Return)]
+        expr = find_local(fp, ret)
+        used = sorted({int(ast.unparse(n.slice)) for n in ast.walk(expr) if isinstance(n, ast.Subscript) and ast.unparse(n.value) == 'coefs'})
+        terms = ast.unparse(expr).replace(' ', '')
+        if terms not in ('coefs[0]*x+coefs[1]*y', 'x*coefs[0]+y*coefs[1]', 'coefs[1]*y+coefs[0]*x'):
+            raise Untranslatable(f'plane is {terms[:40]}')
+        # fit_sphere: design stack([focus, ones]) and sphere = focus * coefs[0]
+        sph = find_local(fs, ast.Name(id='sphere', ctx=ast.Load()))
+        st = ast.unparse(sph).replace(' ', '')
+        if st not in ('focus*coefs[0]', 'coefs[0]*focus'):
+            raise Untranslatable(f'sphere is {st[:40]}')
+        design = [ast.unparse(n.args[0]).replace(' ', '') for n in ast.walk(fs) if isinstance(n, ast.Call) and ast.unparse(n.func) == 'np.stack']
+        if not design or not design[0].startswith('[focus.flatten(),np.ones('):
+            raise Untranslatable('fit_sphere design is not [rho^2, 1]')
+        return (f'def tiltRemovedColumns : List Nat := {used}\ndef powerRemovedColumns : List Nat := [0]\n'
+                f'def tiltDesignHasConstant : Bool := false\ndef powerDesignHasConstant : Bool := true')
+
+    def find_local(fn, e):
+        if isinstance(e, ast.Name):
+            for n in ast.walk(fn):
+                if isinstance(n, ast.Assign) and isinstance(n.targets[0], ast.Name) and n.targets[0].id == e.id:
+                    return n.value
+        return e
+    g.item('removal.columns', 'prysm/interferogram.py:fit_plane,fit_sphere', lambda: ast.Module(body=[get_def(ig, 'fit_plane'), get_def(ig, 'fit_sphere')], type_ignores=[]),
+           removal_columns,
+           'def tiltRemovedColumns : List Nat := [0, 1]\ndef powerRemovedColumns : List Nat := [0]\n'
+           'def tiltDesignHasConstant : Bool := false\ndef powerDesignHasConstant : Bool := true')
+
     g.fact('settersTrivial', 'prysm/_richdata.py:RichData.{x,y,r,t}.setter', lambda: setters_trivial(info))
     text, items = g.finish()
     return text, items
